@@ -60,6 +60,26 @@ Proof.
   rewrite (ha_LOp (S 38)). cbn [flat_map]. rewrite (ha_LOp 38). cbn [flat_map]. now rewrite Ha, Hb.
 Qed.
 
+(* keep_true when the condition may also be NULL (a comparison with an aggregate over no value): NULL does not keep *)
+Definition is_true3 (t : option bool) : bool := match t with Some true => true | _ => false end.
+Lemma keep_true_map3 {A B} (f : A -> B) (cond : B -> option value) (p : A -> bool) l :
+  (forall x, In x l -> exists v t, cond (f x) = Some v /\ truth v = Some t /\ is_true3 t = p x) ->
+  keep_true cond (map f l) = Some (map f (filter p l)).
+Proof.
+  intros H. unfold keep_true. rewrite map_map.
+  assert (E : exists ts, all_some (map (fun x => match cond (f x) with
+                                                  | Some v => match truth v with Some t => Some (f x, t) | None => None end
+                                                  | None => None end) l) = Some ts
+                         /\ map fst (filter (fun p0 => match snd p0 with Some true => true | _ => false end) ts) = map f (filter p l)).
+  { induction l as [|x l IH]; [exists []; split; reflexivity|].
+    destruct IH as [ts [E1 E2]]; [intros y Hy; apply H; now right|].
+    destruct (H x (or_introl eq_refl)) as [v [t [Hc [Ht Hp]]]].
+    exists ((f x, t) :: ts). cbn [map all_some]. rewrite Hc, Ht, E1. split; [reflexivity|].
+    cbn [filter snd]. unfold is_true3 in Hp. rewrite <- Hp.
+    destruct t as [[|]|]; cbn [map fst]; now rewrite E2. }
+  destruct E as [ts [E1 E2]]. now rewrite E1, E2.
+Qed.
+
 (* ---------- a row of index_search as the outer statement sees it ---------- *)
 Definition qrow (m : mspan) : row := qualify "index_search" (mspan_row m).
 Definition same_tr (a b : mspan) : bool := String.eqb (m_trace a) (m_trace b).
@@ -134,7 +154,8 @@ Section GROUPED.
   Variable P : list mspan -> bool.
   Hypothesis Hal : match hv with Some h => having_aliases ev_fuel h | None => [] end = [].
   Hypothesis Hhv : forall h m0 rest, hv = Some h -> In (m0 :: rest) (group_rows same_tr T) ->
-    EVW cte al2 ["trace_id"] ev_fuel true "" (map qrow (m0 :: rest)) (qrow m0) h = Some (vbool (P (m0 :: rest))).
+    exists v t, EVW cte al2 ["trace_id"] ev_fuel true "" (map qrow (m0 :: rest)) (qrow m0) h = Some v
+                /\ truth v = Some t /\ is_true3 t = P (m0 :: rest).
   Hypothesis Hnone : hv = None -> forall g, P g = true.
 
   Lemma stmt_aliases2 : stmt_aliases cols2 hv = al2.
@@ -234,7 +255,7 @@ Section GROUPED.
                     | Some h => keep_true (fun g => evg re_match parse_float hash64 cte al2 ["trace_id"] "" g h) (map (map qrow) (group_rows same_tr T))
                     end = Some (map (map qrow) tgroups)).
     { unfold tgroups. destruct hv as [h|] eqn:Eh.
-      - apply keep_true_map. intros g Hg. destruct g as [|m0 rest]; [exfalso; now apply (tgroups_nonempty [] Hg)|].
+      - apply keep_true_map3. intros g Hg. destruct g as [|m0 rest]; [exfalso; now apply (tgroups_nonempty [] Hg)|].
         unfold evg. cbn [map]. now apply Hhv.
       - f_equal. f_equal. symmetry. clear -Hnone. induction (group_rows same_tr T) as [|g l IH]; [reflexivity|].
         cbn [filter]. rewrite (Hnone eq_refl g). now rewrite IH. }
